@@ -11,6 +11,50 @@ use serde_json::{json, Value as J};
 use std::io::Write;
 use zvariant::serialized::Context;
 
+/// The library's `Type` / serde impls of the std atomics, behind a transparent wrapper that only adds what the
+/// harness needs to compare and print values (the atomics are neither `PartialEq` nor `Clone`).
+macro_rules! atom {
+    ($name:ident, $at:ty) => {
+        pub struct $name(pub $at);
+        impl zvariant::Type for $name {
+            const SIGNATURE: &'static zvariant::Signature = <$at as zvariant::Type>::SIGNATURE;
+        }
+        impl serde::Serialize for $name {
+            fn serialize<S: serde::Serializer>(&self, s: S) -> Result<S::Ok, S::Error> {
+                serde::Serialize::serialize(&self.0, s)
+            }
+        }
+        impl<'de> serde::Deserialize<'de> for $name {
+            fn deserialize<D: serde::Deserializer<'de>>(d: D) -> Result<Self, D::Error> {
+                <$at as serde::Deserialize>::deserialize(d).map($name)
+            }
+        }
+        impl PartialEq for $name {
+            fn eq(&self, o: &Self) -> bool {
+                self.0.load(std::sync::atomic::Ordering::SeqCst) == o.0.load(std::sync::atomic::Ordering::SeqCst)
+            }
+        }
+        impl Clone for $name {
+            fn clone(&self) -> Self {
+                $name(<$at>::new(self.0.load(std::sync::atomic::Ordering::SeqCst)))
+            }
+        }
+        impl std::fmt::Debug for $name {
+            fn fmt(&self, f: &mut std::fmt::Formatter<'_>) -> std::fmt::Result {
+                self.0.fmt(f)
+            }
+        }
+    };
+}
+atom!(AtBool, std::sync::atomic::AtomicBool);
+atom!(AtU8, std::sync::atomic::AtomicU8);
+atom!(AtI16, std::sync::atomic::AtomicI16);
+atom!(AtU16, std::sync::atomic::AtomicU16);
+atom!(AtI32, std::sync::atomic::AtomicI32);
+atom!(AtU32, std::sync::atomic::AtomicU32);
+atom!(AtI64, std::sync::atomic::AtomicI64);
+atom!(AtU64, std::sync::atomic::AtomicU64);
+
 pub fn one<T>(id: u64, v: T, out: &mut Vec<J>)
 where
     T: zvariant::Type + serde::Serialize + serde::de::DeserializeOwned + PartialEq + std::fmt::Debug,
